@@ -303,6 +303,7 @@ def judge(res, spec, ops, trace, shared=None, shared2=None, pair=False):
             w1 = ((spec['n1'],) * 3, (slice(mg, spec['n1'] - mg),) * 3)
             w2 = ((n2,) * 3, (slice(2 * mg, n2 - 2 * mg),) * 3)
         same_trace = ([e for e in events2] == [e for e in events[:len(events2)]])
+        marginal = []
         for r in cands:
             name = r['op'][1] if r['op'][0] == 'key' else 'helper ' + r['op'][1]
             if r['i'] >= len(recs2):          # doubled-grid replay stopped by the work cap
@@ -335,8 +336,29 @@ def judge(res, spec, ops, trace, shared=None, shared2=None, pair=False):
             elif not same_trace:
                 res['notes'].append(f"tier2 trace mismatch for {name}: inconclusive")
                 res['monitor']['tier2_trace_mismatch'] = res['monitor'].get('tier2_trace_mismatch', 0) + 1
+            elif e1 / max(e2, 1e-300) >= 1.3 and not openm and spec['n1'] <= 9:
+                # clearly shrinking but not yet at the asymptotic rate on these very
+                # coarse grids (6-9 points per period): judged on the next pair
+                marginal.append((r, name, det, e2, sc))
             else:
                 common.add_violation(res, f"{name} differs from fresh instance", det)
+        if marginal:
+            n4 = 2 * n2
+            idx4 = {r['i'] for r, *_ in marginal}
+            recs4, events4, _, _ = run_walk(spec, n4, ops[:max(idx4) + 1],
+                                            scale_gb=(n4 / spec['n1']) ** 3, fresh_for=idx4)
+            for r, name, det, e2, sc in marginal:
+                if r['i'] >= len(recs4) or recs4[r['i']]['status'] != 'ok' or recs4[r['i']]['fresh'][0] != 'ok':
+                    res['notes'].append(f"tier2 (finer pair) did not reach {name}: not judged")
+                    res['monitor']['tier2_not_reached'] = res['monitor'].get('tier2_not_reached', 0) + 1
+                    continue
+                _, e4, sc4 = H.compare(recs4[r['i']]['val'], recs4[r['i']]['fresh'][1])
+                det.update(err_4N=e4)
+                if e4 <= 1e-9 * max(sc, sc4) or e2 / max(e4, 1e-300) >= need:
+                    res['monitor']['tier2_accepted_on_finer_pair'] = \
+                        res['monitor'].get('tier2_accepted_on_finer_pair', 0) + 1
+                else:
+                    common.add_violation(res, f"{name} differs from fresh instance", det)
 
 
 def coverage_check(tier, monitor_totals, results):
